@@ -169,22 +169,25 @@ func (r *replayer) replay(hs harnessSpec, tier string, v sym.Violation) (string,
 	}
 	out, timedOut := r.runNative(hs, env, limit)
 	ok := false
-	if strings.HasPrefix(v.Assert, "C10.no-shared-write") {
-		// engine-level instrumentation: confirmed natively by the race detector or by a diverging concurrent response
-		ok = strings.Contains(out, "DATA RACE") || strings.Contains(out, "id=C10.concurrent-equals-sequential")
-		v.Assert = "C10.no-shared-write(confirmed by race run)"
+	instrumented := strings.Contains(v.Assert, "no-shared-write") || strings.Contains(v.Assert, "no-state-kept")
+	if instrumented {
+		// engine-level instrumentation (store tracking): confirmed natively by the race detector or by a diverging concurrent response
+		ok = strings.Contains(out, "DATA RACE") || strings.Contains(out, "concurrent-equals-sequential")
 		if !ok {
 			return "", false, out
 		}
 	}
-	switch v.Assert {
-	case "C10.no-shared-write(confirmed by race run)":
+	switch {
+	case instrumented:
+	default:
+		switch v.Assert {
 	case "uncaught-panic":
 		ok = strings.Contains(out, "outcome=panicked")
 	case "budget":
 		ok = timedOut || strings.Contains(out, "stack overflow") || strings.Contains(out, "goroutine stack exceeds")
-	default:
-		ok = strings.Contains(out, fmt.Sprintf("VERIF-ASSERT-FAILED harness=%s id=%s\n", hs.Name, v.Assert))
+		default:
+			ok = strings.Contains(out, fmt.Sprintf("VERIF-ASSERT-FAILED harness=%s id=%s\n", hs.Name, v.Assert))
+		}
 	}
 	if !ok {
 		return "", false, out
